@@ -31,7 +31,14 @@ type Log struct {
 	T   int
 }
 
+// Quiet turns the log off (race-detector runs): the log mutex would order the goroutines of a scenario with each other at
+// every event and hide unsynchronised accesses of the library from the detector.
+var Quiet = os.Getenv("VERIF_QUIET_LOG") == "1"
+
 func (l *Log) Add(e Ev) {
+	if Quiet && e.E != "hdr" && e.E != "end" && e.E != "hang" {
+		return
+	}
 	l.mu.Lock()
 	e.T = l.T
 	if e.K == "" {
